@@ -173,6 +173,11 @@ pub fn vbe(b: &mut Bat, t: &VBEInfoTag, touch_memory_model: bool) {
         b.u("control.oem_product_revision_ptr", || { c.oem_product_revision_ptr } as u64);
         b.dbg("control.Debug", &c);
     }
+    // An undefined memory-model byte makes the by-value `VBEModeInfo` itself an
+    // invalid value (known finding F15): it is only touched by the probe.
+    if !touch_memory_model {
+        return;
+    }
     if let Out::Val(m) = b.ctx.call("mode_info", || t.mode_info()) {
         b.u("mode.mode_attributes", || { m.mode_attributes }.bits() as u64);
         b.u("mode.window_a_attributes", || m.window_a_attributes.bits() as u64);
